@@ -161,8 +161,10 @@ func (h *RetryHandler) preserveRequestBody(r *http.Request) ([]byte, error) {
 		h.logger.Warn("Failed to close original request body", "error", err)
 	}
 
-	// Recreate the body for the first attempt
+	// Recreate the body for the first attempt. The whole body is in memory now, so its length is
+	// known whatever framing the client used: say so, and the engines can declare it upstream.
 	r.Body = io.NopCloser(bytes.NewReader(bodyBytes))
+	r.ContentLength = int64(len(bodyBytes))
 	return bodyBytes, nil
 }
 
